@@ -241,10 +241,14 @@ func (cu *culprits) ofMap(name string) string {
 	case cu.dup[name]:
 		return "crypto_map_with_duplicate_peer_in_target"
 	}
-	// the device's map under another name, bound to the interface of such a target map
+	// the same binding under the other side's name: the device's map bound to the interface of such a target map, the target's
+	// map bound to the interface of a shared device map
 	for intf, dn := range cu.devBind {
 		if dn == name && cu.dup[cu.tgtBind[intf]] {
 			return "crypto_map_with_duplicate_peer_in_target"
+		}
+		if cu.tgtBind[intf] == name && cu.shared[dn] {
+			return "crypto_map_shared_with_unknown_interface"
 		}
 	}
 	return "other"
